@@ -121,6 +121,42 @@ def main(argv):
                 c.violation("an element whose declared length exceeds the enclosing element is accepted: `%s` -> %s" % (ln[:80], o[:80]),
                             {"cmd": ln, "observed": o}, key="overrun-accepted")
     dis += cd.diff(lines, label="overrun", on_case=on_over)
+    # ---- a length written with 5..8 length octets whose value is the true length plus a multiple of 2^32 (or 2^16, 2^24, 2^40 ...):
+    # the declared extent is astronomically past the input; only the low bits "fit"
+    def widen(tl, extra_hi, nlen):
+        """the TLV `tl` (short or long form) with its length re-declared as true length + extra_hi in exactly nlen length octets"""
+        t, cont, _end = ber.s_tlv(tl, 0)
+        return bytes([t, 0x80 | nlen]) + (len(cont) + extra_hi).to_bytes(nlen, "big") + cont
+    lines = []
+    for _ in range(N // 6):
+        k, v = gen.rvalue(rng, gen.DATA_KINDS)
+        x = gen.enc_rvalue(rng, k, v, legal_variants=False)
+        nlen = rng.choice([3, 4, 5, 5, 6, 7, 8, 8])
+        hi = rng.choice([b for b in (16, 24, 32, 32, 40, 48, 56, 63) if b < 8 * nlen])
+        extra = (1 << hi) * rng.choice([1, 1, 3, 255])
+        if (len(x) + extra).bit_length() > 8 * nlen:
+            continue
+        try:
+            wx = widen(x, extra, nlen)
+        except ber.Strict:
+            continue
+        name = ber.enc_oid([1, 3, 6, 1, rng.randrange(100)])
+        p_in = ber.pdu(0xA2, 7, 0, 0, [ber.tlv(0x30, name + wx)])                              # the value's length
+        p_vb = ber.pdu(0xA2, 7, 0, 0, [widen(ber.tlv(0x30, name + x), extra, nlen)])           # the varbind's length
+        lines.append("value " + wx.hex())
+        lines.append("dec_%s %s" % (k if k in TYPED else "os", wx.hex()) if k in TYPED else "value " + wx.hex())
+        lines.append("pdu " + p_in.hex())
+        lines.append("msg2 " + ber.msg_community(1, b"public", p_vb).hex())
+        lines.append("msg2 " + widen(ber.msg_community(1, b"public", ber.pdu(0xA2, 7, 0, 0, [ber.tlv(0x30, name + x)])), extra, nlen).hex())   # the message's own
+        lines.append("msg1 " + widen(ber.msg_community(0, b"public", ber.pdu(0xA2, 7, 0, 0, [ber.tlv(0x30, name + x)])), extra, nlen).hex())
+        lines.append("hdr " + wx.hex())
+    def on_wide(k, ln, ml, rl, dl):
+        c.count(ln[:300], True)
+        for o in (rl, dl):
+            if o.startswith("OK"):
+                c.violation("an element declaring a length of 2^16..2^63 more than it has is accepted: `%s` -> %s" % (ln[:80], o[:80]),
+                            {"cmd": ln, "observed": o}, key="huge-length-accepted")
+    dis += cd.diff(lines, label="huge-length", on_case=on_wide)
     # ---- the decrypted scoped PDU is an element too: its extent is the msgData OCTET STRING that was decrypted, whatever an
     # earlier request or reply left in the cipher's private buffer.  Inner lengths that run past the plaintext are rejected.
     ok3, log3, v3exe = vf.ocaml_build("v3", "v3_model", "v3_driver")
@@ -143,7 +179,8 @@ def main(argv):
         k = rng.choice([0, 0, 1, 2, 7, 8, 16, 24, 40])
         plain = nested(k)
         salt = gen.rbytes(rng, 8, False)
-        boots, tm = rng.randrange(2 ** 31), rng.randrange(2 ** 31)
+        # the agent's clock over its whole legal range, ends included (snmpEngineBoots latches at 2^31-1)
+        boots, tm = (rng.choice([0, 1, 2 ** 31 - 2, 2 ** 31 - 1, rng.randrange(2 ** 31)]) for _q in range(2))
         if alg == 1:
             iv = bytes(a ^ b for a, b in zip(salt, key[8:16]))
             q = "cipher des enc %s %s %s" % (key[:8].hex(), iv.hex(), (plain + bytes((-len(plain)) % 8)).hex())
